@@ -14,7 +14,7 @@ from .util import subseed, known_entry
 
 BUDGET = {"quick": 60, "thorough": 600}
 CHUNK = {"quick": 6, "thorough": 12}
-QUICK_N = {"C16": 72, "C17": 260, "C18": 260, "C19": 320}
+QUICK_N = {"C16": 72, "C17": 600, "C18": 600, "C19": 700}
 WIDTHS = [1, 2, 5, 10, 20, 40, 80, 120, 200, 500]
 W = "tpsim.ctlworkers."
 
